@@ -142,7 +142,7 @@ RANDOM_CONFIGS = {
 
 
 def describe_stall(st):
-    if st.get("signature") == ss.SIG_DRAIN:
+    if st.get("signature") in (ss.SIG_DRAIN, ss.SIG_PAST_EXPIRY):
         return "thread %s request %s: %s" % (st.get("tid"), st.get("seq"), st.get("shape"))
     return _describe_stall(st)
 
@@ -169,6 +169,13 @@ def feed(c, name, runs, expect=None):
         c.count("outcome:" + r.outcome)
         stalls = ss.stalls_of(r)
         case = dict(kind="schedule", config=name, case=r.case, choices=[ch for (ch, _o, _c) in r.choices])
+        for st in ss.past_expiry(r)[:1]:
+            c.disagreements.append(dict(case=case, impl="oracle: " + st["shape"], model=got[:300], trace=" ".join(r.sched.trace)[:6000]))
+        for st in stalls:
+            # the deadline form of the statement on every stall: a stalled waiter with an expiry returns no later than it
+            if st.get("tmo") is not None and st.get("t_return") is None and r.outcome in ("deadlock", "horizon"):
+                c.disagreements.append(dict(case=case, impl="oracle: stalled waiter with a finite expiry never returned: " + describe_stall(st),
+                                            model=got[:300], trace=" ".join(r.sched.trace)[:6000]))
         if not stalls:
             c.count("waiter returned at the dispatch time (no stall)")
         for st in stalls:
@@ -332,7 +339,7 @@ def oracle_search(ctx, corr, broken):
     deadline = time.time() + ctx.budget(40, 600)
 
     def unlisted(run):
-        sts = [s for s in ss.stalls_of(run) + ss.ready_drain(run) if s["signature"] not in known]
+        sts = [s for s in ss.past_expiry(run) + ss.stalls_of(run) + ss.ready_drain(run) if s["signature"] not in known]
         return sorted(sts, key=lambda s: s["signature"] != ss.SIG_NESTED)     # the most specific shape first
 
     def package(case, run, park_all):
@@ -344,9 +351,9 @@ def oracle_search(ctx, corr, broken):
                 r2 = run_choices(case, choices[:n], park_all)
             except ss.HarnessError:
                 continue
-            if any(s["signature"] == st["signature"] for s in ss.stalls_of(r2) + ss.ready_drain(r2)):
+            if any(s["signature"] == st["signature"] for s in ss.past_expiry(r2) + ss.stalls_of(r2) + ss.ready_drain(r2)):
                 choices, run = choices[:n], r2
-                st = [s for s in ss.stalls_of(r2) + ss.ready_drain(r2) if s["signature"] == st["signature"]][0]
+                st = [s for s in ss.past_expiry(r2) + ss.stalls_of(r2) + ss.ready_drain(r2) if s["signature"] == st["signature"]][0]
                 break
         return (dict(kind="schedule", case=case, choices=choices, park_all=park_all),
                 describe_stall(st) + " | " + (st.get("shape") or "") + " | trace: " + " ".join(run.sched.trace)[:1500], st["signature"])
@@ -392,7 +399,7 @@ def replay(case):
     out["outcome"] = r.outcome
     out["implementation"] = "ok " + r.summary()
     out["trace"] = " ".join(r.sched.trace)
-    sts = ss.stalls_of(r) + ss.ready_drain(r)
+    sts = ss.past_expiry(r) + ss.stalls_of(r) + ss.ready_drain(r)
     out["oracle"] = [describe_stall(s) + " [" + s["signature"] + "]" for s in sts] or "holds (no client blocked after its reply was processed)"
     try:
         out["model"] = run_driver(["serve trace " + " ".join(r.sched.trace)], exe="drv_serve")[0]
